@@ -3,7 +3,7 @@ CONSTANTS
   Family = "e2e"
   Versions <- VersionsQuick
   Width = "quick"
-  MaxForge = 1
+  MaxForge = 2
   ScenarioSet = "e2e_quick"
 INVARIANTS TypeOK MakeJoinExact MakeLeaveExact TemplateShape SendJoinExact InviteExact ReturnsCountersigned PerformJoinExact NoJoinWithoutBothHandlers BannedNeverJoins UnforgedPublicJoinSucceeds UnforgedRestrictedJoinSucceeds TamperedNeverAccepted Emit
 CHECK_DEADLOCK FALSE
